@@ -1,4 +1,5 @@
 #!/bin/sh
+# (set INGEST_SCR=<dir> to run several queues side by side)
 # ingest_queue.sh [-b BASE] [-l LABELPREFIX] C04 C07 ...  — confirm and file both mutants of each listed property, one after the other
 BASE=/tmp/mut; LP=m
 while getopts b:l: o; do case $o in b) BASE=$OPTARG;; l) LP=$OPTARG;; esac; done
